@@ -8,5 +8,8 @@ import LdarModel.Props.C08
 import LdarModel.Props.C09
 import LdarModel.Props.C10
 import LdarModel.Props.C11
+import LdarModel.Props.C12
 import LdarModel.Props.C13
+import LdarModel.Props.C14
 import LdarModel.Props.C16
+import LdarModel.Props.C17
